@@ -4,7 +4,7 @@
 #   (1) applies, (2) builds with and without --features verif_hooks, (3) passes the existing suite unedited,
 #   (4) makes its demonstration fail, and (5) the demonstration passes again without the change.
 # Writes the outcome to /tmp/seed-<ID>/<m>/verified.json.
-ID="$1"; M="$2"; D=/tmp/seed-$ID/$M; W=/tmp/wt-$ID
+ID="$1"; M="$2"; D=/tmp/seed-$ID/$M; W=${WT:-/tmp/wt-$ID}
 export CARGO_NET_OFFLINE=true
 cd "$W" || exit 2
 git checkout -q -- . ; git clean -fdq tests examples src 2>/dev/null
